@@ -38,7 +38,7 @@ func genParse(o *hx.Opts, put putFn) {
 	p("RunPodSandbox", "bogus")
 	r := o.Rand(141)
 	words := append([]string{"all", "pod", "podsandbox", "container", "bogus", "", " "}, eventNames...)
-	for i := 0; i < o.N(300, 20000); i++ {
+	for i := 0; i < o.N(2000, 20000); i++ {
 		var args []string
 		for a, na := 0, 1+r.Intn(2); a < na; a++ {
 			var parts []string
@@ -71,7 +71,7 @@ func genConversions(o *hx.Opts, put putFn) {
 	put("res_oci-nil", resIn{Kind: "res_oci", Res: nil})
 	put("res_nri-nil", resIn{Kind: "res_nri", Res: nil})
 	r := g{o.Rand(142)}
-	for i := 0; i < o.N(3000, 150000); i++ {
+	for i := 0; i < o.N(12000, 150000); i++ {
 		in := resIn{Kind: "res_oci", Res: r.res(true)}
 		if r.r.Intn(3) == 0 {
 			in.Ann = r.kvMap(3)
@@ -104,7 +104,7 @@ func genConversions(o *hx.Opts, put putFn) {
 			}
 		}
 	}
-	for i := 0; i < o.N(1000, 50000); i++ {
+	for i := 0; i < o.N(4000, 50000); i++ {
 		var ms, ns []*jMount
 		for a, n := 0, r.r.Intn(4); a < n; a++ {
 			ms = append(ms, r.mount(true))
@@ -149,7 +149,7 @@ func genConversions(o *hx.Opts, put putFn) {
 		put(id("devices_nri-sys", k), devsIn{Kind: "devices_nri", Devices: []*jDev{d}})
 		k++
 	}
-	for i := 0; i < o.N(1000, 50000); i++ {
+	for i := 0; i < o.N(4000, 50000); i++ {
 		ds, ns := []*jDev{}, []*jDev{}
 		for a, n := 0, r.r.Intn(4); a < n; a++ {
 			ds = append(ds, r.dev())
@@ -171,7 +171,7 @@ func genConversions(o *hx.Opts, put putFn) {
 		put(id("hooks_nri-sys", k), hooksIn{Kind: "hooks_nri", Hooks: h, Extra: h})
 		k++
 	}
-	for i := 0; i < o.N(1000, 50000); i++ {
+	for i := 0; i < o.N(4000, 50000); i++ {
 		put(id("hooks_oci", i), hooksIn{Kind: "hooks_oci", Hooks: r.hooks()})
 		in := hooksIn{Kind: "hooks_nri", Hooks: r.hooks()}
 		if r.r.Intn(3) != 0 {
@@ -194,7 +194,7 @@ func genConversions(o *hx.Opts, put putFn) {
 			k++
 		}
 	}
-	for i := 0; i < o.N(1000, 50000); i++ {
+	for i := 0; i < o.N(4000, 50000); i++ {
 		var env []string
 		kvs := []*jKV{}
 		for a, n := 0, r.r.Intn(5); a < n; a++ {
@@ -215,7 +215,7 @@ func genConversions(o *hx.Opts, put putFn) {
 		put(id("helpers-sys", i), helpIn{Kind: "helpers", Strs: []string{s}, Map: [][2]string{{s, s}}, Key: s})
 		put(id("helpers-sysm", i), helpIn{Kind: "helpers", Strs: []string{s, s}, Map: [][2]string{}, Key: "-" + s})
 	}
-	for i := 0; i < o.N(300, 10000); i++ {
+	for i := 0; i < o.N(1500, 10000); i++ {
 		put(id("helpers", i), helpIn{Kind: "helpers", Strs: r.strList(5), Map: r.kvMap(5), Key: r.str()})
 	}
 }
@@ -225,7 +225,7 @@ func genCtor(o *hx.Opts, put putFn) {
 		put(id("ctor-sys", i), c)
 	}
 	r := g{o.Rand(143)}
-	for i := 0; i < o.N(2000, 100000); i++ {
+	for i := 0; i < o.N(8000, 100000); i++ {
 		put(id("ctor", i), r.ctor())
 	}
 }
@@ -257,7 +257,7 @@ func genAlias(o *hx.Opts, put putFn) {
 	put("alias-env_from", aliasIn{Kind: "alias", What: "env_from", Strs: []string{"A=1", "B=2"}})
 	put("alias-get", aliasIn{Kind: "alias", What: "get"})
 	r := g{o.Rand(144)}
-	for i := 0; i < o.N(150, 5000); i++ {
+	for i := 0; i < o.N(400, 5000); i++ {
 		put(id("alias-copy", i), aliasIn{Kind: "alias", What: "copy", Res: r.res(false)})
 		if i%3 == 0 {
 			put(id("alias-tooci", i), aliasIn{Kind: "alias", What: "tooci", Res: r.res(false)})
